@@ -178,7 +178,7 @@ impl IsoDateTime {
             date_duration.weeks,
             date_duration
                 .days
-                .checked_add(&FiniteF64::from(t_result.0))?,
+                .checked_add(&FiniteF64::try_from(t_result.0)?)?,
         )?;
         let duration = Duration::from(date_duration);
 
@@ -680,6 +680,10 @@ impl IsoTime {
     }
 
     /// Balances and creates a new `IsoTime` with `day` overflow from the provided values.
+    ///
+    /// For values that stay within a few days of overflow (a time of day shifted by an offset or
+    /// rounded up); the day carry of an arbitrary time duration does not fit 32 bits, see
+    /// `balance_with_day_carry`.
     pub(crate) fn balance(
         hour: i64,
         minute: i64,
@@ -688,6 +692,20 @@ impl IsoTime {
         microsecond: i64,
         nanosecond: i64,
     ) -> (i32, Self) {
+        let (days, time) =
+            Self::balance_with_day_carry(hour, minute, second, millisecond, microsecond, nanosecond);
+        (days as i32, time)
+    }
+
+    /// `BalanceTime` with the full day carry (a time duration can span up to 2^53 seconds).
+    pub(crate) fn balance_with_day_carry(
+        hour: i64,
+        minute: i64,
+        second: i64,
+        millisecond: i64,
+        microsecond: i64,
+        nanosecond: i64,
+    ) -> (i64, Self) {
         // 1. Set microsecond to microsecond + floor(nanosecond / 1000).
         // 2. Set nanosecond to nanosecond modulo 1000.
         let (quotient, nanosecond) = div_mod(nanosecond, 1000);
@@ -726,7 +744,7 @@ impl IsoTime {
             nanosecond as u16,
         );
 
-        (days as i32, time)
+        (days, time)
     }
 
     /// Difference this `IsoTime` against another and returning a `TimeDuration`.
@@ -899,13 +917,13 @@ impl IsoTime {
             && sub_second.contains(&self.nanosecond)
     }
 
-    pub(crate) fn add(&self, norm: NormalizedTimeDuration) -> (i32, Self) {
+    pub(crate) fn add(&self, norm: NormalizedTimeDuration) -> (i64, Self) {
         // 1. Set second to second + NormalizedTimeDurationSeconds(norm).
         let seconds = i64::from(self.second) + norm.seconds();
         // 2. Set nanosecond to nanosecond + NormalizedTimeDurationSubseconds(norm).
         let nanos = i32::from(self.nanosecond) + norm.subseconds();
         // 3. Return BalanceTime(hour, minute, second, millisecond, microsecond, nanosecond).
-        Self::balance(
+        Self::balance_with_day_carry(
             self.hour.into(),
             self.minute.into(),
             seconds,
